@@ -683,6 +683,15 @@ func (s *Subtitles) removeUnusedRegionsAndStyles() {
 		}
 	}
 
+	// Styles inherited by a used style are used as well
+	for _, style := range s.Styles {
+		if _, ok := usedStyles[style.ID]; ok {
+			for parent := style.Style; parent != nil && !usedStyles[parent.ID]; parent = parent.Style {
+				usedStyles[parent.ID] = true
+			}
+		}
+	}
+
 	// Loop through style
 	for id, style := range s.Styles {
 		if _, ok := usedStyles[style.ID]; !ok {
